@@ -491,6 +491,7 @@ func init() {
 		Setup: func(r *Run) simrt.Config {
 			c := BaseConfig()
 			c.Horizon = 10 * time.Minute
+			MaybeFine(r, &c, "watermill/message.", 1, 4)
 			return c
 		},
 		Body:  c17Body,
